@@ -15,6 +15,7 @@ git checkout -q -- .
 ( cd "$D/demo" && timeout 900 bash ./run.sh > /tmp/w4/$C-$M-without.log 2>&1 ); rc_without=$?
 rm -rf "$D/demo/target" "$W/target"
 # now /repo
+if [ -n "$SKIP_CHECK" ]; then echo "CONFIRM $C-$M tests=$tests demo_with=$rc_with demo_without=$rc_without check=SKIPPED"; exit 0; fi
 (
   flock 9
   git -C /repo apply "$D/patch.diff" || { echo "CONFIRM $C-$M repo-apply-failed"; exit 3; }
